@@ -1462,6 +1462,58 @@ def classify_while(loop):
                         fixed(c.comparators[0], g):
                     return "ok", (f"bounded variant: {g} grows in every iteration that goes round again and `{ast.unparse(c)[:60]}` "
                                   f"leaves the loop ({type(s.body[-1]).__name__.lower()}) at a bound the body does not change")
+    # structural descent: a cursor walks down a finite nesting (a map into one of its windows, a node to its parent); every way
+    # round the loop rebinds the cursor to something obtained from the cursor itself, every other way leaves the loop.  The same
+    # argument as for structural recursion (the nesting is finite and acyclic), written as a loop.
+    t = loop.test
+    test_ok = (isinstance(t, ast.Constant) and t.value is True) or \
+        (isinstance(t, ast.Compare) and len(t.ops) == 1 and isinstance(t.ops[0], ast.IsNot) and isinstance(t.left, ast.Name) and
+         isinstance(t.comparators[0], ast.Constant) and t.comparators[0].value is None)
+    if test_ok and not loop.orelse:
+        local_src = {}
+        for s_ in loop.body:
+            for x in ast.walk(s_):
+                if isinstance(x, ast.Assign) and len(x.targets) == 1:
+                    for nm in ast.walk(x.targets[0]):
+                        if isinstance(nm, ast.Name):
+                            local_src.setdefault(nm.id, []).append(x.value)
+
+        def derives(v, cur, depth=0):
+            for n_ in ast.walk(v):
+                if isinstance(n_, (ast.Attribute, ast.Subscript, ast.Call)):
+                    r_ = n_.func if isinstance(n_, ast.Call) else n_
+                    while isinstance(r_, (ast.Attribute, ast.Subscript)):
+                        r_ = r_.value
+                    if isinstance(r_, ast.Name) and r_.id == cur:
+                        return True
+            if depth < 2:
+                for n_ in ast.walk(v):
+                    if isinstance(n_, ast.Name) and n_.id != cur and n_.id in local_src:
+                        if any(derives(v2, cur, depth + 1) for v2 in local_src[n_.id]):
+                            return True
+            return False
+
+        def advances(stmts, cur):
+            for s_ in stmts:
+                if isinstance(s_, (ast.Return, ast.Raise, ast.Break)):
+                    return True
+                if isinstance(s_, ast.Assert) and isinstance(s_.test, ast.Constant) and not s_.test.value:
+                    return True                         # `assert False`: an arm that is never taken (A1)
+                if isinstance(s_, ast.Assign) and len(s_.targets) == 1 and isinstance(s_.targets[0], ast.Name) and s_.targets[0].id == cur and \
+                        derives(s_.value, cur):
+                    return True
+                if isinstance(s_, ast.If) and s_.orelse and advances(s_.body, cur) and advances(s_.orelse, cur):
+                    return True
+            return False
+        cursors = {x.targets[0].id for s_ in loop.body for x in ast.walk(s_)
+                   if isinstance(x, ast.Assign) and len(x.targets) == 1 and isinstance(x.targets[0], ast.Name) and
+                   derives(x.value, x.targets[0].id)}
+        if isinstance(t, ast.Compare):
+            cursors &= {t.left.id}
+        for cur in sorted(cursors):
+            if advances(loop.body, cur):
+                return "ok", (f"structural descent: every way round the loop rebinds `{cur}` to something obtained from `{cur}` itself (a level "
+                              "further down a finite nesting), every other way leaves the loop")
     return "unk", "a while loop needs a recognisable variant; none of the verified loop shapes applies"
 
 
